@@ -1746,6 +1746,12 @@ def run(ctx):
         'one abscissa) and well-posed fits on different objects in every order without restoring anything in between.  The '
         'list of warning filters is not observed (pydl never edits it; lazy imports inside numpy/scipy append to it).  '
         'Non-finite y values are outside the statement (it speaks of a non-finite normal matrix, i.e. weights)',
+        'breakpoint mask: while some basis function sees no datum a -1 may drop only good interior breakpoints that are knots '
+        'of, or within max(1, nord div 2) knots of, the support of such a function (or of a function whose measured influence '
+        'sum w B^2 is below 1e-6 of the mean weight - the code treats those as unsupported too); when every function sees data '
+        'but they are too few, any interior breakpoint may go.  Histories on ONE object with data that change between fits '
+        '(a second gap right of / left of / overlapping / adjacent to an already masked region, then the data back) are '
+        'judged fit by fit against the support of the data of that call and the mask left by the earlier calls',
         'iterfit runs: every fit must be handed the caller\'s own (x, y, weight) triples in non-decreasing x (weights '
         'clipped at 0) - otherwise the status / optimum judged here would be those of other data',
         'representations of the data: abscissae and evaluation points are also handed over as integer-typed arrays (int64 / '
